@@ -11,6 +11,7 @@
 #include <queue>
 #include <limits>
 #include <type_traits>
+#include <vector>
 
 #include "xtensor/xtensor.hpp"
 
@@ -85,7 +86,14 @@ namespace fastscapelib
 
             const auto elevation_flat = xt::flatten(elevation);
 
-            for (size_type idx : graph_impl.base_levels())
+            // base levels are stored in an unordered set: visit them in a well
+            // defined order so that the result (tie-breaking between nodes of
+            // equal elevation) doesn't depend on how the set was filled
+            std::vector<size_type> base_levels(graph_impl.base_levels().begin(),
+                                               graph_impl.base_levels().end());
+            std::sort(base_levels.begin(), base_levels.end());
+
+            for (size_type idx : base_levels)
             {
                 open.emplace(pflood_node<FG, elev_t>(idx, elevation_flat(idx)));
                 closed(idx) = true;
